@@ -1084,6 +1084,12 @@ func (e *Engine) special(f *Frame, fn *ssa.Function, args []Val, st *State, pos 
 			un.oblige(st, "lock", fmt.Sprintf("%s on %s: lock state must be %d", m, hn, want), pos, Eq(cur, IntLit(want)), false)
 		}
 		un.setH(st, hn, Store(h, key, IntLit(next)))
+		if m == "Lock" || m == "RLock" {
+			// every acquisition starts a new critical section of this lock (stale-lookup rule, needLock)
+			en := "$ep_" + hn
+			eh := un.H(st, en, ArrSort(SInt, SInt))
+			un.setH(st, en, Store(eh, key, Add(Select(eh, key), IntLit(1))))
+		}
 		return Val{}, true
 	}
 	return Val{}, false
